@@ -10,6 +10,7 @@ import (
 	"context"
 	"sync/atomic"
 
+	"github.com/dgraph-io/badger/v4/vhook"
 	"github.com/dgraph-io/ristretto/v2/z"
 )
 
@@ -63,6 +64,9 @@ func (w *WaterMark) Init(closer *z.Closer) {
 
 // Begin sets the last index to the given value.
 func (w *WaterMark) Begin(index uint64) {
+	if vhook.On {
+		vhook.EventKV("wm.begin", []byte(w.Name), nil, index, 0)
+	}
 	w.lastIndex.Store(index)
 	w.markCh <- mark{index: index, done: false}
 }
@@ -75,6 +79,9 @@ func (w *WaterMark) BeginMany(indices []uint64) {
 
 // Done sets a single index as done.
 func (w *WaterMark) Done(index uint64) {
+	if vhook.On {
+		vhook.EventKV("wm.done", []byte(w.Name), nil, index, 0)
+	}
 	w.markCh <- mark{index: index, done: true}
 }
 
@@ -172,6 +179,9 @@ func (w *WaterMark) process(closer *z.Closer) {
 
 		if until != doneUntil {
 			AssertTrue(w.doneUntil.CompareAndSwap(doneUntil, until))
+			if vhook.On {
+				vhook.EventKV("wm.advance", []byte(w.Name), nil, doneUntil, until)
+			}
 		}
 
 		notifyAndRemove := func(idx uint64, toNotify []chan struct{}) {
@@ -204,6 +214,9 @@ func (w *WaterMark) process(closer *z.Closer) {
 		case <-closer.HasBeenClosed():
 			return
 		case mark := <-w.markCh:
+			if vhook.On {
+				vhook.Point("wm.recv:" + w.Name)
+			}
 			if mark.waiter != nil {
 				doneUntil := w.doneUntil.Load()
 				if doneUntil >= mark.index {
